@@ -170,6 +170,11 @@ STRUCT = {
         ['self.s = (self.s + self.k) & 7', 'self.q.prepare(self.s)'],
         ['if (self.a.get() == self.k):', '    self.q.prepare(1)', 'else:', '    self.q.prepare(self.b.get() + self.k)'],
     ],
+    'strstate': [
+        # state kept in a string / None attribute (set in the constructor): refused, or text that is legal and behaves alike
+        ["if (self.mode == 'off'):", "    self.mode = 'on'", '    self.q.prepare(1)', 'else:', "    self.mode = 'off'", '    self.q.prepare(self.a.get())'],
+        ['if (self.last is None):', '    self.last = self.a.get()', 'self.q.prepare(self.last)'],
+    ],
     'locals': [
         ['t = self.a.get() + self.b.get()', 'u = t * 2', 'self.q.prepare(u + self.s)', 'self.s = t'],
         ['t = self.a.get()', 't = t + 1', 'self.q.prepare(t)'],
@@ -228,6 +233,9 @@ def source(p, cname):
         lines.append('        self.s = %d' % p['s0'])
         if p.get('family') == 'boolstate':
             lines.append('        self.f = False')
+        if p.get('family') == 'strstate':
+            lines.append("        self.mode = 'off'")
+            lines.append('        self.last = None')
         if p.get('family') == 'namedcase':
             lines.append('        self.c0 = 0')
             lines.append('        self.c1 = 1')
@@ -284,7 +292,7 @@ class Interp:
         try:
             self.block(self.tree.body)
         except NotImplementedError:
-            if self.p.get('family') == 'probe':
+            if self.p.get('family') in ('probe', 'strstate'):
                 raise OutOfDomain('construct not modelled by the domain interpreter')
             raise
         return self.env['s'], self.q
